@@ -151,4 +151,32 @@ def run_c07(chk, F, tier):
                 ok = False
         chk.check(ok, "R07", "reparse-tested@%s" % b.id, "%s re-parses text and uses the tree without testing for syntax errors" % b.id, b.loc())
     chk.floor("range-format functions that parse", n, 3)
-    chk.explanation = "Dominance + guard-edge analysis at every call site of the range formatter core and at every re-parse inside it."
+    # R07b: the replacement ends with a line break exactly when the replaced region did
+    import dataflow
+    chk.rule("R07b", "the fragment's `insert_final_newline` is decided by `fragment.ends_with('\\n')` -- the last byte of a line break in every "
+                     "line-ending convention -- not by a terminator guessed from elsewhere in the fragment")
+    core = F.bodies.get(RANGE_CORE)
+    nset = 0
+    for blk in core.blocks:
+        for st in blk[1]:
+            if st[0] == "a" and any(isinstance(e, list) and e[0] == "f" and e[2] == "insert_final_newline" for e in st[1][1:]):
+                nset += 1
+                ok = False
+                why = "not the result of ends_with"
+                l = dataflow.operand_local(st[2][1]) if st[2][0] == "use" else None
+                for r in (dataflow.roots(core, l) if l is not None else ()):
+                    if r[0] == "call":
+                        c = core.blocks[r[1]][2][1]
+                        if name(c).endswith("::ends_with") and len(c["a"]) == 2:
+                            pat = c["a"][1]
+                            if pat[0] == "k" and pat[1] in ("char", "str") and pat[2] in ("\n",):
+                                ok = True
+                            else:
+                                why = "ends_with a pattern that is not the constant '\\n'"
+                chk.check(ok, "R07b", "final-newline#%d" % nset,
+                          "reformat_range_in_chunk decides the fragment's final newline by something other than `fragment.ends_with('\\n')` (%s): in a "
+                          "region whose line endings are mixed the replacement loses its last line break and its last line is glued to the next "
+                          "untouched line (tokens merge, a statement disappears into a comment)" % why, core.loc(st[3] if len(st) > 3 else None),
+                          sample={"rule": "R07b", "verdict": "ends_with('\\n')"})
+    chk.floor("assignments of insert_final_newline in the range formatter", nset, 1)
+    chk.explanation = "Dominance + guard-edge analysis at every call site of the range formatter core and at every re-parse inside it; source of the fragment's final-newline flag."
